@@ -16,7 +16,9 @@ Inductive req :=
 | QList (a b : bytes) (rev limit : N)
 | QCompact (rev : N)
 | QCount (a b : bytes)                               (* Count with EnableEtcdCompatibility on *)
-| QStream (a b : bytes) (rev : N).                   (* ListByStream(Enc(a,0), Enc(b,0), rev), drained *)
+| QStream (a b : bytes) (rev : N)                    (* ListByStream(Enc(a,0), Enc(b,0), rev), drained *)
+| QRestart.                                          (* the node restarts: engine closed and reopened where it persists, a new
+                                                        backend takes over with SetCurrentRevision(the revision reached) *)
 
 Definition kvrev := (bytes * N)%type.                 (* value, mod revision *)
 
@@ -31,7 +33,8 @@ Inductive resp :=
 | PCompact (hdr : N) (err : bool)
 | PCount (hdr : N) (count : N)
 | PStream (kvs : list (bytes * bytes * N)) (err : bool)   (* all batches concatenated; the end marker carried an error *)
-| PHang.                                              (* no answer within the driver's watchdog: never produced by the programs *)
+| PHang                                               (* no answer within the driver's watchdog: never produced by the programs *)
+| PRestarted.                                         (* the driver's mark for a restart step; clients see nothing *)
 
 (* proto.Event: type (CREATE 0, PUT 1, DELETE 2), Kv.Key, Kv.Value, Kv.Revision, Revision *)
 Definition event := (N * bytes * bytes * N * N)%type.
@@ -414,6 +417,13 @@ Definition q_compact (st : bstate) (revision : N) : bstate * resp :=
       end
   end.
 
+(* A restart.  The sequential backend keeps nothing but the engine and the two revision counters: the event ring,
+   the watcher hub, the retry queue (empty: no uncertain write) and the compaction history (only read for TTL expiry)
+   do not enter any answer of the programs above.  The engine's content survives (Badger: the directory is reopened;
+   the mock cluster and the in-memory map outlive the backend); the new backend is told the revision the old one had
+   reached (SetCurrentRevision: committed := rev, allocated raised to rev). *)
+Definition q_restart (st : bstate) : bstate := mk_bs (k_st st) (k_rev st).
+
 (* ---------- a sequential history ---------- *)
 
 Definition q_step (st : bstate) (q : req) : bstate * resp * list event :=
@@ -426,6 +436,7 @@ Definition q_step (st : bstate) (q : req) : bstate * resp * list event :=
   | QCompact rev => let '(st', r) := q_compact st rev in (st', r, [])
   | QCount a b => (st, q_count st a b, [])
   | QStream a b rev => (st, q_stream st a b rev, [])
+  | QRestart => (q_restart st, PRestarted, [])
   end.
 
 (* a panic ends the history: the request never returns *)
